@@ -274,8 +274,8 @@ def check(recipe, ctx):
                     r = merge(target, **kw)
                 else:
                     r = glom.glom(target, spec)
-                if kind == 'flatten-lazy':
-                    r = list(r)
+                # (also for the lazy spelling the refusal comes from the glom() call itself, not from the first next()
+                # on an object handed back as if everything were fine)
             except FoldError:
                 continue
             except Exception as e:
